@@ -823,6 +823,17 @@ func (e *Env) call(n ECall) TVal {
 			}
 			return TVal{T: Term{app("<=", a.T.S, e.st.allocTop.S), SBool}}
 		}
+	case "bytes":
+		// bytes(s): the conversion []byte(s) (same symbol the executor uses)
+		if !argc(1) {
+			return TVal{}
+		}
+		{
+			a := e.tr(n.Args[0])
+			ts := vc.sorts.SortOf(types.NewSlice(types.Typ[types.Byte]))
+			vc.declareFun("str_bytes", []string{SStr}, ts)
+			return TVal{T: Term{app("str_bytes", a.T.S), ts}, Ty: types.NewSlice(types.Typ[types.Byte])}
+		}
 	case "fresh":
 		// fresh(x): the object x designates did not exist when the function under verification was entered
 		if !argc(1) {
